@@ -25,6 +25,99 @@ macro_rules! harness16 {
     };
 }
 
+/// Same, with the integer lattice model (exact for ANY exponent gap, i.e. points arbitrarily
+/// far outside the box) — only for harnesses whose inputs stay on the lattice.
+macro_rules! harness16l {
+    ($(#[$m:meta])* fn $name:ident() $body:block) => {
+        harness! {
+            #[kani::stub(f64::rem_euclid, crate::rem_lattice::rem_euclid_lattice)]
+            $(#[$m])*
+            fn $name() $body
+        }
+    };
+}
+
+/// Coordinate on the far lattice: ±(12-bit significand) times 2^f, -1000 <= f <= 300, or ±0 —
+/// up to 2^330 periods away from the box.
+fn any_value_far() -> f64 {
+    let zero: bool = kani::any();
+    let neg: bool = kani::any();
+    let sign = if neg { 1_u64 << 63 } else { 0 };
+    if zero {
+        return f64::from_bits(sign);
+    }
+    let m: u16 = kani::any();
+    kani::assume(m < 2048);
+    let f: i16 = kani::any();
+    kani::assume(f >= -1000 && f <= 300);
+    let exp = (1023_i64 + i64::from(f)) as u64;
+    f64::from_bits(sign | (exp << 52) | (u64::from(m) << 41))
+}
+
+/// Box, identity and congruence against the exact residue (integer model),
+/// for coordinates arbitrarily far outside the box.
+fn check_wrap_far(v: f64, l: f64, w: f64) {
+    assert!(w >= 0.0 && w < l, "wrapped coordinate lies in the half-open box [0, L)");
+    if v >= 0.0 && v < l {
+        assert!(w == v, "a coordinate already in the box is unchanged");
+    }
+    // exact residue of v modulo L in (-L, L), as a double (exact on the lattice)
+    let Some(r) = crate::rem_lattice::fmod_lattice(v, l) else { panic!("lattice input outside the model") };
+    let r = if r < 0.0 { r + l } else { r }; // one rounding, at most ulp(L)/2
+    let d = (r - w).abs();
+    let tol = l * f64::from_bits((1023_u64 - 49) << 52); // L * 2^-49
+    assert!(d <= tol || (d - l).abs() <= tol, "wrapped coordinate is congruent to the input modulo the period");
+}
+
+harness16l! {
+    // bound: wrap_coord<f64>, D=1, far lattice: L (7-bit significand, |e|<=30) x v (12-bit significand, 2^-1000..2^300, ±0): all four clauses
+    #[kani::unwind(13)]
+    fn c16_wrap_coord_far_lattice_1d() {
+        let l = any_period();
+        let v = any_value_far();
+        let space = ToroidalSpace::<1>::new([l]);
+        let Some(w) = space.wrap_coord::<f64>(0, v) else { panic!("finite input with a positive finite period was refused") };
+        check_wrap_far(v, l, w);
+        kani::cover!(v < 0.0 && w == 0.0, "a negative coordinate wraps to 0.0 (clamp exercised)");
+        kani::cover!(v.abs() > l * 1e30 && w > 0.0, "a coordinate more than 1e30 periods away wraps into the interior");
+        kani::cover!(v == l, "v == L reached");
+        kani::cover!(v >= 0.0 && v < l, "v inside the box reached");
+    }
+}
+
+harness16l! {
+    // bound: ToroidalModel::canonicalize_point_in_place<f64> (hook), D=1, far lattice: all four clauses
+    #[kani::unwind(13)]
+    fn c16_model_canonicalize_far_lattice_1d() {
+        let l = any_period();
+        let v = any_value_far();
+        let mut c = [v];
+        let r = thooks::toroidal_canonicalize_point_in_place::<f64, 1>([l], &mut c);
+        assert!(r.is_ok(), "finite input with a positive finite period is accepted");
+        check_wrap_far(v, l, c[0]);
+        kani::cover!(v < 0.0 && c[0] == 0.0, "a negative coordinate wraps to 0.0 (clamp exercised)");
+        kani::cover!(v.abs() > l * 1e30 && c[0] > 0.0, "a coordinate more than 1e30 periods away wraps into the interior");
+        core::mem::forget(r);
+    }
+}
+
+harness16l! {
+    // bound: TopologicalSpace::canonicalize_point, D=2 (axis 0 symbolic), far lattice: all four clauses
+    #[kani::unwind(13)]
+    fn c16_canonicalize_point_far_lattice_2d() {
+        let l = any_period();
+        let v = any_value_far();
+        let space = ToroidalSpace::<2>::new([l, 2.0]);
+        let mut c = [v, -3.5];
+        space.canonicalize_point(&mut c);
+        check_wrap_far(v, l, c[0]);
+        assert!(c[1] == 0.5);
+        kani::cover!(v < 0.0 && c[0] == 0.0, "a negative coordinate wraps to 0.0 (clamp exercised)");
+        kani::cover!(v.abs() > l * 1e30 && c[0] > 0.0, "a coordinate more than 1e30 periods away wraps into the interior");
+    }
+}
+
+
 /// Period on the lattice: 7-bit significand (1.xxxxxx) times 2^e, |e| <= 30.
 fn any_period() -> f64 {
     let m: u8 = kani::any();
